@@ -219,3 +219,5 @@ def replay(ctx, d):
             programs.evaluate(T, spec, cls, container, ck.on_node)
         except programs.EvalError as e:
             ck.bad("raised", e.spec, {"error": repr(e.exc)[:300]})
+        except programs.Degenerate:
+            print("recorded case is outside the examined input class (float overflow / underflow range)")
